@@ -62,16 +62,16 @@ func (cp *Checkpoint) Destroy() error {
 }
 
 func (cp *Checkpoint) Document() checkpointDocument {
-	if len(cp.WALs) > 1 {
-		panic("should not serialize a checkpoint with multiple WALs")
-	}
 	doc := checkpointDocument{
 		ID:         cp.ID,
 		Levels:     cp.Levels.Document(),
 		LastSeqNum: cp.LastSeqNum,
 	}
-	if len(cp.WALs) == 1 {
-		doc.WALs = []wal.HandleDocument{cp.WALs[0].Document()}
+	// A checkpoint restored from several instances (rescaling) has one WAL per
+	// instance and stays in the list until it is no longer retained, so it is
+	// written again with the next checkpoint.
+	for _, w := range cp.WALs {
+		doc.WALs = append(doc.WALs, w.Document())
 	}
 
 	return doc
